@@ -22,6 +22,34 @@ def alnum_differential(res):
                                    % ("alpha" if fn == "IsValidAlpha" else "numeric", fn)})
 
 
+def check_route(res, gr, results):
+    """per marker: the members reached through the marker of their (multi-name) inline struct are reported as often as the
+    directly marked top-level fields that hold the same values"""
+    n = 0
+    for m in gr.meta:
+        sc, st = genprop.find_struct(gr, m["key"])
+        for j, cs in enumerate(st["cases"]):
+            o = gr.obs.get("%s/%d" % (m["key"], j))
+            if o is None:
+                continue
+            n += 1
+            direct, through = {}, {}
+            ok = o["VT"] == "nil" or o["VT"].startswith("R:")
+            if ok and o["VT"] != "nil":
+                for ent in o["VT"][2:].split(";"):
+                    path, typ = [bytes.fromhex(x).decode() for x in ent.split(",")[:2]]
+                    tgt = direct if path.split(".")[-1].startswith("Ref") else through
+                    tgt[typ] = tgt.get(typ, 0) + 1
+            if not ok or direct != through:
+                res.violation({"kind": "spec-violation", "struct": m["key"], "case_index": j, "case": cs, "observed": o["VT"],
+                               "entries_from_directly_marked_fields": direct, "entries_from_members_of_the_inline_structs": through,
+                               "source": genprop.struct_source(gr, m["key"]),
+                               "what": "a format marker written on a multi-name inline struct does not judge the members of every name like the same marker "
+                                       "on a plain field holding the same value"})
+                return
+    res.coverage["route_cases"] = n
+
+
 def check(res):
     corpus = corpora.c06(res.seed, res.tier)
     hosts = corpus.pop("hosts")
@@ -29,6 +57,9 @@ def check(res):
     # verdict per marker is what C06 states, so the multiset of reported marker types is compared
     genprop.run(res, "C06", None, hosts, tag="c06h", spec_cmp="obs_same_types")
     res.coverage["coincident_paths"] = {k: res.coverage.get(k) for k in ("programs", "evaluations", "certificates")}
+    route = corpus.pop("route")
+    genprop.run(res, "C06", None, route, tag="c06r", spec=False, extra=lambda gr, r: check_route(res, gr, r))
+    res.coverage["multi_name_inline_structs"] = {k: res.coverage.get(k) for k in ("programs", "evaluations", "certificates", "route_cases")}
     genprop.run(res, "C06", PROPFILE, corpus)
     alnum_differential(res)
 
